@@ -237,6 +237,12 @@ def leaf_contracts():
         returns="none", inline=INL + ["Equality.commas_to_list"], callee_variants={"ExpressionUtility.is_none": "of_a_number"},
         property_clauses={"sum_of_the_arguments_none_counting_as_zero": "C01"}, **{k: v for k, v in base.items() if k != "inline"}))
     cs.append(Contract(
+        target=f"{FN}/math/subtract.py::Subtract._produce_value", variant="two_numbers",
+        types={**pair, "self.children.0.children.0.g_value": "num", "self.children.0.children.1.g_value": "num"}, requires=["self.children[0].op == ','"], modifies=pmods,
+        ensures={"first_argument_minus_the_second": "self.value == %s - %s" % (a_, b_)},
+        returns="none", inline=INL + ["Equality.commas_to_list", "Subtract._do_sub"],
+        property_clauses={"first_argument_minus_the_second": "C01"}, **{k: v for k, v in base.items() if k != "inline"}))
+    cs.append(Contract(
         target=f"{FN}/math/multiply.py::Multiply._produce_value", variant="two_numbers",
         types={**pair, "self.children.0.children.0.g_value": "optnum", "self.children.0.children.1.g_value": "optnum"}, requires=["self.children[0].op == ','"], modifies=pmods,
         ensures={"product_of_the_arguments": "implies(%s is not None and %s is not None, self.value == %s * %s)" % (a_, b_, a_, b_),
